@@ -175,6 +175,20 @@ func (cs *chkSelector) rebuildChunkStatuses(ctx context.Context, cks chunk.Chunk
 }
 
 func (cs *chkSelector) updatePoss(ch chunk.Chunk, chkSt *chkStatus, ri tmindex.RecordsInfo) {
+	if kr, ok := cs.tmidx.(interface {
+		KnownRecordsInfo(src string, cid chunk.Id) (tmindex.RecordsInfo, uint32, error)
+	}); ok {
+		ri1, known, err := kr.KnownRecordsInfo(cs.jrnl.Name(), ri.Id)
+		if err != nil || chkSt.count > known {
+			// records the journal has confirmed, but the time index has not been told about yet, can carry
+			// any timestamp: neither the hull nor the index may close the window, the whole chunk stays open
+			chkSt.minPos, chkSt.maxPos = 0, math.MaxUint32
+			return
+		}
+		// the hull which accounts for all the chunk's confirmed records
+		ri = ri1
+	}
+
 	if cs.tmRange.MaxTs < ri.MinTs || cs.tmRange.MinTs > ri.MaxTs {
 		// case 1
 		chkSt.minPos, chkSt.maxPos = math.MaxUint32, math.MaxUint32
